@@ -1942,7 +1942,7 @@ package engine
 
 //@ ---------------------------------------------------------------- bagof/setof: every witness group becomes an alternative (C11)
 
-//@ func collectionOf$1
+//@ func collectionOf$2
 //@   property C11
 //@   nosafety
 //@   trusted-frame
